@@ -3,6 +3,7 @@ import PhyVerif.Spec.C17
 import PhyVerif.Lemmas.C17
 import PhyVerif.Lemmas.C17b
 import PhyVerif.Lemmas.C17c
+import PhyVerif.Lemmas.C17d
 /-!
 # C17 — spike selection honours its cluster, chunk, subset and count constraints
 Only property theorems + non-vacuity examples; proofs in `Lemmas/C17.lean`.
@@ -74,6 +75,35 @@ theorem selection_order_invariant (choose : List Nat → Nat → List Nat) (f : 
     chunksKept (x.mapTimes f).bounds x.nKept = (chunksKept x.bounds x.nKept).map f :=
   ⟨Lemmas.selectWith_mapTimes choose f hf x hdom.times, Lemmas.chunksKept_map f x.bounds x.nKept⟩
 
+/-- Closed form, and determinism: when no positive count is given (`None`, `0`, negative) the selection does not depend on
+the random choice at all and is EXACTLY the increasing list of spike ids whose cluster is requested, whose time lies in a
+kept chunk (when chunk restriction is on) and which are in the subset (when one is given) — one filter over the spike
+ids, no per-cluster bookkeeping.  No `ChooseOK` hypothesis: `choose` is arbitrary. -/
+theorem selection_noCount_closed_form (choose : List Nat → Nat → List Nat) (x : Inp) (hg : GridOK x.bounds)
+    (hn : NoCount x) : selectWith choose x = allEligible x :=
+  Lemmas.selectWith_noCount choose x hg hn
+
+/-- Two selectors with different random sources agree whenever no positive count is given. -/
+theorem selection_noCount_deterministic (choose choose' : List Nat → Nat → List Nat) (x : Inp) (hg : GridOK x.bounds)
+    (hn : NoCount x) : selectWith choose x = selectWith choose' x := by
+  rw [Lemmas.selectWith_noCount choose x hg hn, Lemmas.selectWith_noCount choose' x hg hn]
+
+/-- A count only REMOVES spikes: for every admissible random choice and every count, each returned spike is one the
+uncounted selection returns (stated against the closed form, hence against every uncounted run). -/
+theorem selection_sub_uncounted (choose choose' : List Nat → Nat → List Nat) (hch : ChooseOK choose) (x : Inp)
+    (hg : GridOK x.bounds) (v : Nat) (h : v ∈ selectWith choose x) :
+    v ∈ selectWith choose' { x with count := none } := by
+  have hx : allEligible { x with count := none } = allEligible x := rfl
+  rw [Lemmas.selectWith_noCount choose' { x with count := none } hg (by unfold NoCount; trivial), hx]
+  exact Lemmas.selectWith_sub_allEligible choose hch x hg v h
+
+/-- Link to C07: without count, chunk restriction and subset the selector IS `_spikes_in_clusters` of the cluster vector
+(the model of C07, whose theorem `C07.spikesInClusters_eq_union` says it is the sorted union of the groups). -/
+theorem selection_plain_eq_spikesInClusters (choose : List Nat → Nat → List Nat) (x : Inp) (hg : GridOK x.bounds)
+    (hn : NoCount x) (hc : x.subsetChunks = false) (hs : x.subset = none) :
+    selectWith choose x = C07.spikesInClusters x.clusters x.req := by
+  rw [Lemmas.selectWith_noCount choose x hg hn, Lemmas.allEligible_plain x hc hs]
+
 /-! Non-vacuity -/
 example : chunksKept [0, 10, 20, 30, 40, 50] 2 = [0, 10, 30, 40] := by decide
 example : keptOK [0, 10, 20, 30, 40, 50] 2 (chunksKept [0, 10, 20, 30, 40, 50] 2) = true := by decide
@@ -105,5 +135,19 @@ example : Dom ⟨[1, 5, 12, 31, 33, 39, 45], [2, 2, 7, 2, 2, 2, 7], [0, 10, 20, 
 example : ∀ a b : Int, a < b → 3 * a - 100 < 3 * b - 100 := by intro a b h; omega
 example : Dom ⟨[1, 5, 12], [2, 2, 7], [0, 10, 20], 1, some 2, [7, 2], true, none⟩ :=
   ⟨⟨by decide, by decide⟩, by decide, by decide⟩
+
+-- closed form: an input with count 0 (no effect), chunk restriction on; a reversed "random" choice changes nothing
+example :
+    let x : Inp := ⟨[1, 5, 12, 31, 33, 39, 45], [2, 2, 7, 2, 2, 2, 7], [0, 10, 20, 30, 40, 50], 2, some 0,
+                    [7, 2, 9], true, none⟩
+    NoCount x ∧ allEligible x = [0, 1, 3, 4, 5] ∧ selectWith (fun l n => l.reverse.take n) x = [0, 1, 3, 4, 5] := by
+  refine ⟨by simp [NoCount], by decide, by decide⟩
+-- with a count of 2 the selection [0, 1] is inside it; plain selection = `_spikes_in_clusters`
+example :
+    let x : Inp := ⟨[1, 5, 12, 31, 33, 39, 45], [2, 2, 7, 2, 2, 2, 7], [0, 10, 20, 30, 40, 50], 2, none,
+                    [7, 2, 9], false, none⟩
+    NoCount x ∧ selectWith (fun l n => l.take n) x = [0, 1, 2, 3, 4, 5, 6] ∧
+      C07.spikesInClusters x.clusters x.req = [0, 1, 2, 3, 4, 5, 6] := by
+  refine ⟨by simp [NoCount], by decide, by decide⟩
 
 end PhyVerif.C17
